@@ -50,6 +50,11 @@ pub enum Packing {
     /// then its four finalization PDUs and the second bitmap PDU in ONE record, then the third bitmap PDU. The receive thread
     /// itself runs the activation; nothing may stay in the TLS layer on the way
     ReactivationPacked,
+    /// a PDU cut across two records whose second record ALSO carries the whole next PDU (pairs: head of a | tail of a + b)
+    TailWithNext,
+    /// a bitmap PDU whose first fast-path update is one the client does not decode (pointer position) and whose second
+    /// update is the bitmap; one PDU per record
+    UndecodableUpdateFirst,
 }
 
 #[derive(Clone, Copy, Debug, Serialize, PartialEq)]
@@ -132,6 +137,15 @@ pub fn scripts() -> Vec<Script> {
             }
         }
     }
+    // (appended: the indices of the scripts above stay what they were)
+    for packing in [Packing::TailWithNext, Packing::UndecodableUpdateFirst] {
+        v.push(Script { packing, end: End::None, end_after: 3, preloaded: false, nla: false, end_in_last_record: false, after_end: false });
+        v.push(Script { packing, end: End::None, end_after: 2, preloaded: false, nla: false, end_in_last_record: false, after_end: false });
+        for end in [End::DisconnectUltimatum, End::CloseNotify, End::AbruptClose] {
+            v.push(Script { packing, end, end_after: 2, preloaded: false, nla: false, end_in_last_record: false, after_end: false });
+            v.push(Script { packing, end, end_after: 3, preloaded: false, nla: false, end_in_last_record: false, after_end: false });
+        }
+    }
     v
 }
 
@@ -141,6 +155,13 @@ enum EnvAction {
     Push(Vec<u8>),
     Yield,
     Close,
+}
+
+/// a pointer-position update (not decoded by the client) in front of the bitmap update of `bitmap_pdu(seq)`, and a
+/// synchronize update behind it
+fn two_update_pdu(seq: u16) -> Vec<u8> {
+    let r = Rect { left: seq, top: 0, right: seq + 1, bottom: 0, width: 2, height: 1, bpp: 16, flags: 0, data: vec![seq as u8, 1, 2, 3] };
+    framing::fastpath(0, &fastpath::updates_payload(&[fastpath::other_update(fastpath::UPD_PTR_POSITION), Update::Bitmap(vec![r]), fastpath::other_update(fastpath::UPD_SYNCHRONIZE)]), false)
 }
 
 fn bitmap_pdu(seq: u16) -> Vec<u8> {
@@ -572,7 +593,7 @@ fn build_actions(script: &Script, peer: &mut TlsPeer, st: &mut State) -> Vec<Env
         pdus_done = 1;
         st.record_ends.push((0, 1));
     }
-    let mut pdus: Vec<Vec<u8>> = (first..script.end_after as u16).map(|seq| if script.packing == Packing::BigSecondPdu && seq == 1 { big_bitmap_pdu(seq) } else { bitmap_pdu(seq) }).collect();
+    let mut pdus: Vec<Vec<u8>> = (first..script.end_after as u16).map(|seq| if script.packing == Packing::BigSecondPdu && seq == 1 { big_bitmap_pdu(seq) } else if script.packing == Packing::UndecodableUpdateFirst { two_update_pdu(seq) } else { bitmap_pdu(seq) }).collect();
     let end_plain: Option<Vec<u8>> = match script.end {
         End::DisconnectUltimatum => Some(framing::tpkt(&framing::x224_dt(&mcs::disconnect_provider_ultimatum(3)))),
         End::UndecodableRdpKind => Some(framing::tpkt(&framing::x224_dt(&[0x00, 0x00, 0x00]))),
@@ -669,6 +690,25 @@ fn build_actions(script: &Script, peer: &mut TlsPeer, st: &mut State) -> Vec<Env
                     _ => p.clone(),
                 };
                 push_record(&plain, 1, false, &mut actions, st, &mut raw_off, &mut pdus_done);
+            }
+        }
+        Packing::TailWithNext => {
+            let mut i = 0;
+            while i < pdus.len() {
+                if i + 1 < pdus.len() {
+                    let cut = pdus[i].len() / 2;
+                    push_record(&pdus[i][..cut], 0, false, &mut actions, st, &mut raw_off, &mut pdus_done);
+                    push_record(&[pdus[i][cut..].to_vec(), pdus[i + 1].clone()].concat(), 2, false, &mut actions, st, &mut raw_off, &mut pdus_done);
+                    i += 2;
+                } else {
+                    push_record(&pdus[i], 1, false, &mut actions, st, &mut raw_off, &mut pdus_done);
+                    i += 1;
+                }
+            }
+        }
+        Packing::UndecodableUpdateFirst => {
+            for p in &pdus {
+                push_record(p, 1, false, &mut actions, st, &mut raw_off, &mut pdus_done);
             }
         }
         Packing::PduAcrossTwoRecords => {
@@ -1013,6 +1053,7 @@ pub fn is_quick(s: &Script) -> bool {
         && !(rare_end && s.packing != Packing::OnePerRecord)
         && !(s.packing == Packing::OnePerRecordWithPauses && s.end == End::UndecodableRdpKind)
         && !(s.packing == Packing::ReactivationPacked && s.end == End::AbruptClose)
+        && !(matches!(s.packing, Packing::TailWithNext | Packing::UndecodableUpdateFirst) && matches!(s.end, End::CloseNotify | End::AbruptClose))
 }
 
 /// per-run directory (the parent names it in VERIF_C20_STATS, its workers inherit the variable): two runs of this
@@ -1096,7 +1137,7 @@ impl Prop for C20 {
                 Packing::ReactivationPacked => 115,
                 Packing::RecordAcrossTwoSegments => 75,
                 Packing::EmptyPdusInside => 73,
-                Packing::PduAcrossTwoRecords => 72,
+                Packing::PduAcrossTwoRecords | Packing::TailWithNext => 72,
                 Packing::BigSecondPdu => 68,
                 Packing::OnePerRecord => 57,
                 Packing::TwoThenOne => 51,
